@@ -10,7 +10,7 @@ from irsym.term import Term
 
 OPS = dict(DEFAULT=1, SIZED=2, EXTERNAL=3, FROMLIST=4, ALIGNED=5, COPYCON=6, MOVECON=7, DESTROY=8, COPYASSIGN=9, MOVEASSIGN=10,
            SETBACKING=11, EXPR=12, PLAININC=13, PLAINDEC=14, SCALE=15, DIVIDE=16, EQ=17, TRACE=18, FILL=19, FROMMATRIX=20, FACTORY=21,
-           ROTMAT=22, CLEARCACHE=23, PRINT=24, GETMATRIX=25, COMPONENTS=26, ROTATE=27, UNARYVIEW=28, CONVERT=31, CHURN=32)
+           ROTMAT=22, CLEARCACHE=23, PRINT=24, GETMATRIX=25, COMPONENTS=26, ROTATE=27, UNARYVIEW=28, CONVERT=31, CHURN=32, GEXPR=33)
 OPNAME = {v: k for k, v in OPS.items()}
 EXPRS = {0: 'a+b', 1: 'move(a)+b', 2: 'a+move(b)', 3: 'move(a)+move(b)', 4: 'a-b', 5: 'move(a)-b', 6: '-a', 7: '-move(a)', 8: 'a*c', 9: 'move(a)*c',
          10: 'c*a', 11: 'c*move(a)', 12: 'iCommutator(a,b)', 13: 'ACommutator(a,b)', 14: 'a.Evolve(b,c)', 15: 'a.Evolve(buf)', 16: 'ElementwiseProduct(a,b)',
@@ -30,10 +30,12 @@ class Ins:
         self.preload = preload
 
     def constructs(self):
-        return self.op in CONSTRUCTS or (self.op == OPS['EXPR'] and self.x // 32 == 3) or (self.op == OPS['CONVERT'] and self.x in (0, 5))
+        return self.op in CONSTRUCTS or (self.op == OPS['EXPR'] and self.x // 32 == 3) or (self.op == OPS['CONVERT'] and self.x in (0, 5)) or (self.op == OPS['GEXPR'] and self.x // 1024 == 3)
 
     def describe(self):
         nm = OPNAME[self.op]
+        if self.op == OPS['GEXPR']:
+            return '%sguarantee<%d>(%s)%s  [v=slot%d a=slot%d b=slot%d]' % (STMTS[self.x // 1024], (self.x // 32) % 32, EXPRS[self.x % 32], ')' if self.x // 1024 == 3 else '', self.t, self.s1, self.s2)
         if self.op == OPS['EXPR']:
             return '%s%s%s  [v=slot%d a=slot%d b=slot%d]' % (STMTS[self.x // 32], EXPRS[self.x % 32], ')' if self.x // 32 == 3 else '', self.t, self.s1, self.s2)
         return '%s t=%d s1=%d s2=%d x=%d y=%d ext=%d' % (nm, self.t, self.s1, self.s2, self.x, self.y, self.ext)
@@ -161,17 +163,33 @@ class Pool:
 
 # ---------------------------------------------------------------------------------------- native replay
 def native_driver(sanitize=True):
-    os.makedirs(build.BUILD, exist_ok=True)
-    src = os.path.join(build.VERIF, 'harness', 'pool.cpp')
-    key = build.file_hash(src, extra=build.repo_hash() + str(sanitize))
-    out = os.path.join(build.BUILD, 'pooldrv.%s.%s' % ('san' if sanitize else 'plain', key))
-    if os.path.exists(out):
+    """replay driver (pool.cpp with -DPOOL_MAIN + the library sources), built under ASan/UBSan; objects compiled in parallel"""
+    with build._Lock('pooldrv'):
+        os.makedirs(build.BUILD, exist_ok=True)
+        src = os.path.join(build.VERIF, 'harness', 'pool.cpp')
+        key = build.file_hash(src, extra=build.repo_hash() + str(sanitize))
+        out = os.path.join(build.BUILD, 'pooldrv.%s.%s' % ('san' if sanitize else 'plain', key))
+        if os.path.exists(out):
+            return out
+        build._prune('pooldrv.%s.' % ('san' if sanitize else 'plain'), key)
+        flags = ['-fsanitize=address,undefined', '-fno-omit-frame-pointer', '-O0', '-g1'] if sanitize else ['-O2']
+        jobs = [(src, ['-DPOOL_MAIN'])] + [(os.path.join(build.REPO, 'src', s_), []) for s_ in ('SUNalg.cpp', 'const.cpp', 'MatrixExp.cpp')]
+        procs = []
+        objs = []
+        for i, (f, extra) in enumerate(jobs):
+            o = out + '.%d.o' % i
+            objs.append(o)
+            cmd = ['g++', '-std=c++11'] + flags + extra + ['-I' + build.REPO + '/include', '-c', f, '-o', o]
+            procs.append((subprocess.Popen(cmd, stdout=subprocess.PIPE, stderr=subprocess.PIPE, text=True), cmd))
+        for p_, cmd in procs:
+            so, se = p_.communicate()
+            if p_.returncode != 0:
+                sys.stderr.write(se[-3000:])
+                raise RuntimeError('native driver build failed: ' + ' '.join(cmd[:4]))
+        build.sh(['g++'] + flags + objs + ['-lgsl', '-lgslcblas', '-lm', '-o', out])
+        for o in objs:
+            os.remove(o)
         return out
-    build._prune('pooldrv.%s.' % ('san' if sanitize else 'plain'), key)
-    flags = ['-fsanitize=address,undefined', '-fno-omit-frame-pointer', '-O1', '-g'] if sanitize else ['-O2']
-    srcs = [os.path.join(build.REPO, 'src', s) for s in ('SUNalg.cpp', 'const.cpp', 'MatrixExp.cpp')]
-    build.sh(['g++', '-std=c++11', '-DPOOL_MAIN'] + flags + ['-I' + build.REPO + '/include', src] + srcs + ['-lgsl', '-lgslcblas', '-lm', '-o', out])
-    return out
 
 
 def native_replay(program, nslots=3, nbufs=3, sanitize=True, tag='replay'):
